@@ -10,8 +10,7 @@ RULE = ("TLC enumerates 36 model ASTs (FCN / Harmonic / Polynomial / QRES / Deep
 def run(ctx):
     ctx.mc("MC_Models", workers=2, note="Functional is preserved by Sequential / Parallel composition of functional parts; space derivations")
     if ctx.replay:
-        scen = [json.load(open(ctx.replay))["trace"]["scenario"]]
-        scen[0].pop("tid", None)
+        scen = ctx.replay_scenarios()
     else:
         scen = ctx.gen("Gen_C08", "Gen_C08")
         if not ctx.quick:
